@@ -29,7 +29,8 @@ def run_one(module, func, timeout, env=None, extra=()):
     path = os.path.join(HARNESS, module + ".py")
     ln = line_of(path, func)
     e = dict(os.environ)
-    e["PYTHONPATH"] = f"{HARNESS}:{os.path.join(VERIF, 'lib')}:/repo"
+    e["PYTHONPATH"] = (f"{HARNESS}:{os.path.join(VERIF, 'lib')}:"
+                       + os.environ.get("VERIF_REPO", "/repo"))
     e["PYTHONWARNINGS"] = "ignore"
     e["PYTHONHASHSEED"] = "0"
     if env:
